@@ -26,7 +26,7 @@ let tab (s : state) : state =
 
 let tabc (c : cstate) : cstate =
   let a = Array.init maxt (fun i -> c.pend (nat_of_int i)) in
-  { cs = tab c.cs; pend = (fun t -> let i = int_of_nat t in if i < maxt then a.(i) else None); pendquit = c.pendquit }
+  { cs = tab c.cs; pend = (fun t -> let i = int_of_nat t in if i < maxt then a.(i) else None); pendres = c.pendres }
 
 let code_text = function
   | 1 -> "event is not an enabled transition of the model"
@@ -44,6 +44,8 @@ let code_text = function
   | 13 -> "quitFlag read differs from the model"
   | 14 -> "search flag read differs from the model"
   | 15 | 16 -> "quitAckWaitChildren differs from the model"
+  | 17 -> "result handler of the search ran outside iterativeDeepening"
+  | 18 -> "a helper result was accepted although its jobId is not the current one (or rejected although it is)"
   | 20 -> "worker tree changed while the protocol is not quiescent"
   | 21 -> "worker tree is not the shape createWorkers builds (parent >= child)"
   | 22 -> "event by a thread on another thread's mailbox/notifier"
@@ -153,6 +155,7 @@ let validate file =
         | "GO" -> if !dirty then reconfigure line; feed line t (EvGo (a <> 0))
         | "QUIT" -> feed line t EvQuit
         | "UNPONDER" -> feed line t EvUnponder
+        | "RESULT" -> feed line t (EvResult (z_of_int a, z_of_int b))
         | "SENDQUIT" -> own a; feed line t (EvSendQuit (nat_of_int t, z_of_int b))
         | "QACK" -> own a; feed line t (EvQAck (nat_of_int t, z_of_int b))
         | _ -> bad 23 line t
